@@ -243,3 +243,131 @@ def is_spd_exact(A):
                 f = A[r][k] / A[k][k]
                 A[r] = [x - f * y for x, y in zip(A[r], A[k])]
     return True
+
+
+# ---- multivariate polynomials on the unit cube: {exponent tuple: Fraction} ------------------------
+
+def mp_add(a, b):
+    r = dict(a)
+    for e, c in b.items():
+        r[e] = r.get(e, 0) + c
+    return {e: c for e, c in r.items() if c != 0}
+
+
+def mp_scale(a, c):
+    return {e: v * c for e, v in a.items() if v * c != 0}
+
+
+def mp_mul(a, b):
+    r = {}
+    for e1, c1 in a.items():
+        for e2, c2 in b.items():
+            e = tuple(x + y for x, y in zip(e1, e2))
+            r[e] = r.get(e, 0) + c1 * c2
+    return {e: c for e, c in r.items() if c != 0}
+
+
+def mp_diff(a, k):
+    r = {}
+    for e, c in a.items():
+        if e[k] > 0:
+            e2 = e[:k] + (e[k] - 1,) + e[k + 1:]
+            r[e2] = r.get(e2, 0) + c * e[k]
+    return r
+
+
+def mp_eval(a, t):
+    r = F(0)
+    for e, c in a.items():
+        v = c
+        for x, k in zip(t, e):
+            v *= F(x) ** k
+        r += v
+    return r
+
+
+def mp_int_unit(a):
+    """integral over [0,1]^d"""
+    r = F(0)
+    for e, c in a.items():
+        v = c
+        for k in e:
+            v /= (k + 1)
+        r += v
+    return r
+
+
+def mp_degvar(a, k):
+    return max([e[k] for e in a] + [0])
+
+
+def mp_l1(a):
+    return sum(abs(c) for c in a.values())
+
+
+def multilinear_map(coeffs, d):
+    """Components of the d-linear map with corner values coeffs[i_0]...[i_{d-1}] = point (x_0..x_{d-1}),
+    parameter axis k = array axis k (pyiga: kvs[k]), as polynomials in t = (t_0..t_{d-1})."""
+    import itertools
+    comps = [dict() for _ in range(d)]
+    for idx in itertools.product(*(d * [[0, 1]])):
+        basis = {tuple([0] * d): F(1)}
+        for k, b in enumerate(idx):
+            one = tuple([0] * d)
+            tk = tuple(1 if m == k else 0 for m in range(d))
+            basis = mp_mul(basis, {tk: F(1)} if b else {one: F(1), tk: F(-1)})
+        pt = coeffs
+        for b in idx:
+            pt = pt[b]
+        for c in range(d):
+            comps[c] = mp_add(comps[c], mp_scale(basis, F(pt[c])))
+    return comps
+
+
+def mp_det(J):
+    d = len(J)
+    if d == 2:
+        return mp_add(mp_mul(J[0][0], J[1][1]), mp_scale(mp_mul(J[0][1], J[1][0]), F(-1)))
+    def m2(a, b, c, e):
+        return mp_add(mp_mul(a, e), mp_scale(mp_mul(b, c), F(-1)))
+    t0 = mp_mul(J[0][0], m2(J[1][1], J[1][2], J[2][1], J[2][2]))
+    t1 = mp_mul(J[0][1], m2(J[1][0], J[1][2], J[2][0], J[2][2]))
+    t2 = mp_mul(J[0][2], m2(J[1][0], J[1][1], J[2][0], J[2][1]))
+    return mp_add(mp_add(t0, mp_scale(t1, F(-1))), t2)
+
+
+def abs_det_poly(comps):
+    """|det DG| as a polynomial, or None if the sign of det is not the same at centre and all corners."""
+    import itertools
+    d = len(comps)
+    J = [[mp_diff(comps[c], k) for k in range(d)] for c in range(d)]
+    det = mp_det(J)
+    pts = [tuple([F(1, 2)] * d)] + [tuple(F(b) for b in idx) for idx in itertools.product(*(d * [[0, 1]]))]
+    vals = [mp_eval(det, t) for t in pts]
+    if all(v > 0 for v in vals):
+        return det
+    if all(v < 0 for v in vals):
+        return mp_scale(det, F(-1))
+    return None
+
+
+def exact_inner_mp(spaces, g):
+    """int N_{i_0}(t_0)...N_{i_{d-1}}(t_{d-1}) g(t) dt over [0,1]^d for g = {exponents: coef}; spaces: [(kv, p)].
+    Flat list in C order (first space slowest)."""
+    d = len(spaces)
+    loads = {}
+    for k, (kv, p) in enumerate(spaces):
+        for e in set(ex[k] for ex in g):
+            loads[(k, e)] = exact_load(kv, p, [0] * e + [1])[0]
+    ns = [len(kv) - p - 1 for kv, p in spaces]
+    total = 1
+    for n in ns:
+        total *= n
+    res = [F(0)] * total
+    for ex, c in g.items():
+        vec = [c]
+        for k in range(d):
+            L = loads[(k, ex[k])]
+            vec = [a * b for a in vec for b in L]
+        res = [r + v for r, v in zip(res, vec)]
+    return res
